@@ -148,8 +148,9 @@ def check_tool(case):
         if not per and not gen and vals:
             f.append(('error-metadata-spurious', '%s: compliant graph %d has %r' % (lab, k, vals)))
     if case.get('subprocess'):
-        c2, o2, e2 = cli.run_subprocess(argv, stdin)
-        if (c2, o2) != (code, out):
+        sub = cli.run_subprocess(argv, stdin)
+        c2, o2, e2 = sub if sub is not None else (None, None, None)
+        if sub is not None and (c2, o2) != (code, out):
             f.append(('harness:inprocess-vs-subprocess', '%s: in-process (%r, %s) subprocess (%r, %s)' % (lab, code, short(out, 200), c2, short(o2, 200))))
     return f
 
